@@ -258,6 +258,9 @@ class Balancer:
         if len(t.args) < 2:
             log.debug("can't do anything with an unop bool")
             return None
+        if not all(isinstance(a, BV) for a in t.args):
+            log.debug("can't do anything with a comparison of non-bitvectors (e.g. Bool == Bool)")
+            return False
         if t.args[0].cardinality > 1 and t.args[1].cardinality > 1:
             log.debug("can't do anything because we have multiple multivalued guys")
             return False
